@@ -181,6 +181,45 @@ func cmdCheck(args []string) int {
 	var jobs []solveJob
 	for _, k := range keys {
 		vcs, res := e.GenFunc(k)
+		if res.Err != "" && res.ErrKind == "stale" {
+			// a loop clause names a local that no longer exists: was it renamed?  Try the function's
+			// variables the contract does not mention; a candidate is accepted only if every
+			// obligation then discharges (an invariant is an auxiliary of the proof, so a proof found
+			// this way is a proof of the same postconditions)
+			if missing, cands := e.RenameCandidates(k, res.Err); len(cands) > 0 {
+				for _, cand := range cands {
+					e.alias = map[string]string{missing: cand}
+					vcs2, res2 := e.GenFunc(k)
+					e.alias = nil
+					if res2.Err != "" {
+						continue
+					}
+					var js []solveJob
+					for _, vc := range vcs2 {
+						for _, o := range vc.Obls {
+							js = append(js, solveJob{vc: vc, o: o})
+						}
+					}
+					e.Solve(js, cfg)
+					all := true
+					for _, o := range res2.Obls {
+						want := "unsat"
+						if o.Kind == "pre-sat" || o.Kind == "vacuity" {
+							continue
+						}
+						if o.Result != want && matchKnown(&known, *prop, res2.Key, o) == nil {
+							all = false
+						}
+					}
+					if all {
+						fmt.Printf("NOTE property=%s function=%s contract name %q resolved to the renamed local %q (every obligation discharges with it)\n", *prop, k, missing, cand)
+						res2.Notes = append(res2.Notes, fmt.Sprintf("loop clauses name %q, which the function no longer has; proved with %q in its place", missing, cand))
+						vcs, res = vcs2, res2
+						break
+					}
+				}
+			}
+		}
 		frs = append(frs, &fr{res, vcs})
 		for _, vc := range vcs {
 			for _, o := range vc.Obls {
